@@ -13,5 +13,5 @@ open(p,'w').write(s.replace(old,new,1))
 PY
 [ $? -eq 3 ] && { rm -rf "$tmp"; exit 3; }
 (cd "$tmp" && go build ./... 2>&1 | head -5)
-/verif/bin/mgcheck "$1" quick -repo "$tmp" -quiet | cut -c1-420
+${MGBIN:-/verif/bin/mgcheck} "$1" quick -repo "$tmp" -quiet | cut -c1-420
 rm -rf "$tmp"
